@@ -436,12 +436,29 @@ fn branch_name(s: &RSchema, env: &Env) -> String {
 
 /// Does the decoded datum `v` (under schema `s`) denote the value the generator described?
 fn matches(a: &Value, v: &RValue, s: &RSchema, env: &Env) -> Result<(), String> {
+	matches_lg(a, v, s, env, false)
+}
+
+/// `declared`: the description said that this position was declared with a logical-type attribute
+/// (and the schema node was already found to carry it)
+fn matches_lg(a: &Value, v: &RValue, s: &RSchema, env: &Env, declared: bool) -> Result<(), String> {
 	if let Some(inner) = a.get("nt") {
 		// a serde newtype struct is transparent
-		return matches(inner, v, s, env);
+		return matches_lg(inner, v, s, env, declared);
+	}
+	if let Some(lg) = a.get("lg") {
+		let want = lg[0].as_str().ok_or("bad lg")?;
+		return match env.resolve(s).logical_type() {
+			Some(l) if l.name() == want => matches_lg(&lg[1], v, s, env, true),
+			Some(l) => Err(format!("the position was declared with logical type `{want}` but the schema node carries logicalType `{}`", l.name())),
+			None => Err(format!("the position was declared with logical type `{want}` but the schema node carries no logicalType: {:?}", env.resolve(s))),
+		};
 	}
 	let s = env.resolve(s);
 	let logical = s.logical_type();
+	if let (Some(l), false) = (logical, declared) {
+		return Err(format!("the position was declared WITHOUT a logical-type attribute (described {a}) but the schema node carries logicalType `{}`: {s:?}", l.name()));
+	}
 	let s = env.resolve(s.base());
 	let fail = |why: &str| Err(format!("{why}: described {a} but the bytes decode to {v:?} under {s:?}"));
 	let obj = a.as_object().ok_or("description is not an object")?;
@@ -789,7 +806,7 @@ pub fn run(rep: &mut Report) {
 	rep.extra.insert("generated_workspace".into(), json!(gen_dir().display().to_string()));
 	let cfgs = c20_enum::grammar_cfgs(thorough);
 	rep.rule = format!(
-		"SAE over programs x values. Programs: ALL type-definition programs of the grammar (root = named struct of 1-3 fields | newtype struct | unit-only enum of 1|3 symbols | enum of 1-3 newtype variants with no / first / last unit variant `Null`; type expressions = leaf | Option | Vec | BTreeMap<String,_> | Box | new struct | new newtype struct | new unit-only enum | new union enum | generic G<T>{{a:T,b:Vec<T>}} | shared use of an earlier type | recursive use of an enclosing struct guarded by Option/Vec/Map + heap indirection; serde_bytes Vec<u8> / [u8;4] / Option<Vec<u8>> at field positions) enumerated by the odometer with {}; constraint-violating programs (Option of nullable, two variants on one branch, union in union) are rejected, not judged; plus {} hand-listed sweep programs beyond the bound (every leaf type i32 i64 u16 u32 u64 i8 i16 usize bool f32 f64 String () bytes [u8;0|1|4|16] in every position kind, Box/Rc/Arc/&str/&[u8], HashMap/BTreeMap, every logical-type attribute incl. implicit/bytes/fixed decimals and duration, name/namespace overrides incl. the empty namespace, same-named types in two modules, three generic shapes instantiated at all pairs of argument types, 19 recursion shapes incl. mutual recursion and recursion through union enums and generic arguments, wide records/enums/unions). Every program is one module of a generated crate compiled against the current derive crates. Values: exhaustive over leaf boundary sets, collections of 0-2 elements (all ordered pairs up to 32 element values, consecutive pairs above), HashMap 0-1 entries, recursion depth <= 2, full cartesian product of fields up to 4096 tuples (star product above), unsigned leaves up to the range of their Avro type. Oracle per program: schema() Ok twice with equal JSON and fingerprint; JSON resolves under the reference resolver (one definition per fullname, no dangling reference; leading-dot references to the null namespace accepted); number of record / enum definitions = number of distinct struct types or instantiations / unit-only enums reachable from the root (modulo the derive's documented lookup equivalence u16=i32, Box<T>=T ...). Per value: to_datum_vec Ok; the reference decoder consumes exactly the bytes and the datum denotes the described value under the DERIVED schema (field names, union branch by Avro name, enum symbol, decimal unscaled value); from_datum_slice::<T> returns a value equal by PartialEq and by description (float bits). Non-trivial: the program has >= 2 type definitions or the encoding has >= 2 bytes; distinct on (program, value index).",
+		"SAE over programs x values. Programs: ALL type-definition programs of the grammar (root = named struct of 1-3 fields | newtype struct | unit-only enum of 1|3 symbols | enum of 1-3 newtype variants with no / first / last unit variant `Null`; type expressions = leaf | Option | Vec | BTreeMap<String,_> | Box | new struct | new newtype struct | new unit-only enum | new union enum | generic G<T>{{a:T,b:Vec<T>}} | shared use of an earlier type | recursive use of an enclosing struct guarded by Option/Vec/Map + heap indirection; serde_bytes Vec<u8> / [u8;4] / Option<Vec<u8>> at field positions) enumerated by the odometer with {}; constraint-violating programs (Option of nullable, two variants on one branch, union in union) are rejected, not judged; plus {} hand-listed sweep programs beyond the bound (every leaf type i32 i64 u16 u32 u64 i8 i16 usize bool f32 f64 String () bytes [u8;0|1|4|16] in every position kind, Box/Rc/Arc/&str/&[u8], HashMap/BTreeMap, every logical-type attribute incl. implicit/bytes/fixed decimals and duration, name/namespace overrides incl. the empty namespace, same-named types in two modules, three generic shapes instantiated at all pairs of argument types, generic structs whose logical-typed field owns a named fixed at two instantiations, every logical attribute next to plain uses of its base type in both orders and one level down, both spellings of the logical names, 19 recursion shapes incl. mutual recursion and recursion through union enums and generic arguments, wide records/enums/unions). Every program is one module of a generated crate compiled against the current derive crates. Values: exhaustive over leaf boundary sets, collections of 0-2 elements (all ordered pairs up to 32 element values, consecutive pairs above), HashMap 0-1 entries, recursion depth <= 2, full cartesian product of fields up to 4096 tuples (star product above), unsigned leaves up to the range of their Avro type. Oracle per program: schema() Ok twice with equal JSON and fingerprint; JSON resolves under the reference resolver (one definition per fullname, no dangling reference; leading-dot references to the null namespace accepted); number of record / enum definitions = number of distinct struct types or instantiations / unit-only enums reachable from the root (modulo the derive's documented lookup equivalence u16=i32, Box<T>=T ...). Per value: to_datum_vec Ok; the reference decoder consumes exactly the bytes and the datum denotes the described value under the DERIVED schema (field names, union branch by Avro name, enum symbol, decimal unscaled value; a position declared with a logical-type attribute carries exactly that logicalType in the schema, a position declared without one carries none); from_datum_slice::<T> returns a value equal by PartialEq and by description (float bits). Non-trivial: the program has >= 2 type definitions or the encoding has >= 2 bytes; distinct on (program, value index).",
 		cfgs.iter().map(|c| format!("<= {} nodes over the {} alphabet (leaves {:?}, field leaves {:?}, map {}, generic {})", c.max_nodes, c.label, c.leaves, c.field_leaves, c.map, c.generic)).collect::<Vec<_>>().join(" and "),
 		l.per_source.last().map_or(0, |s| s.1),
 	);
